@@ -2,6 +2,7 @@ import Driver.Parse
 import Driver.IntegerD
 import Driver.VammD
 import Driver.FeedD
+import Driver.WorldD
 
 namespace Driver
 
@@ -9,6 +10,7 @@ structure DState where
   acc : Acc := {}
   vh : VHist := {}
   fh : FHist := {}
+  wh : WHist := {}
 
 def handle (s : DState) (line0 : String) : DState :=
   let line := line0.trimAscii.toString
@@ -17,6 +19,10 @@ def handle (s : DState) (line0 : String) : DState :=
   match kind with
   | "I" => { s with acc := handleInteger acc kv line }
   | "VCFG" => let (a, h) := handleVCfg acc s.vh kv line; { s with acc := a, vh := h }
+  | "CFG" => let (a, h) := handleWCfg acc kv line; { s with acc := a, wh := h }
+  | "TX" => let (a, h) := handleWTx acc s.wh kv line; { s with acc := a, wh := h }
+  | "OBS" => let (a, h) := handleWObs acc s.wh kv line; { s with acc := a, wh := h }
+  | "QRY" => { s with acc := handleWQry acc s.wh kv line }
   | "PCFG" => let (a, h) := handlePCfg acc kv; { s with acc := a, fh := h }
   | "POP" => let (a, h) := handlePOp acc s.fh kv line; { s with acc := a, fh := h }
   | "VOP" => let (a, h) := handleVOp acc s.vh kv line; { s with acc := a, vh := h }
